@@ -861,4 +861,245 @@ Section Runs.
   Proof.
     induction fuel as [|f IH]; intros st cs st' t H; simpl in H; [discriminate|]. apply (seq_safe _ IH _ _ _ _ H).
   Qed.
+
+  (* ----- which filters and listeners run, when they do not re-enter ----- *)
+
+  Definition quiet (l : list (nat * nat)) : Prop := forall h c n, In (h, c) l -> body_of c n = [].
+
+  Lemma has_l_in h c l : In (h, c) l -> has_l h l = true.
+  Proof.
+    induction l as [|[x y] l IH]; intros H; [destruct H|]. simpl. destruct H as [H|H].
+    - inversion H; subst. rewrite Nat.eqb_refl. reflexivity.
+    - rewrite (IH H). apply orb_true_r.
+  Qed.
+
+  Section Exact.
+    Variable rec : fstate -> list fcmd -> option (fstate * list fev).
+    Hypothesis rec_nil : forall st, rec st [] = Some (st, []).
+
+    Lemma run_filters_exact d orig : forall todo pre st cell st' cell' ok t,
+      flt st = pre ++ todo -> quiet todo ->
+      run_filters lp behav rec st d todo orig cell = Some (st', cell', ok, t) ->
+      flt st' = flt st /\ lsts st' = lsts st
+      /\ exists j, filter_ids t = firstn j todo /\ (ok = true -> j = length todo)
+                   /\ filter_phase d cell t (if ok then Some cell' else None).
+    Proof.
+      induction todo as [|[h c] rest IH]; intros pre st cell st' cell' ok t F Q H.
+      - simpl in H. inversion H; subst. split; [reflexivity|]. split; [reflexivity|].
+        exists 0. split; [reflexivity|]. split; [reflexivity|]. constructor.
+      - rewrite rf_cons in H.
+        assert (Eh : has_l h (flt st) = true) by (rewrite F; apply (has_l_in h c); apply in_or_app; right; left; reflexivity).
+        rewrite Eh in H. cbv zeta in H. rewrite (Q h c _ (or_introl eq_refl)), rec_nil in H.
+        set (n := act_of (acts (activate st c)) c) in *. simpl app in H.
+        destruct (verdict_of c n).
+        + destruct (run_filters lp behav rec (activate st c) d rest orig (rewritten (write_of c n) cell)) as [[[[st3 cell3] ok3] t2]|] eqn:E2; [|discriminate].
+          inversion H; subst.
+          assert (F2 : flt (activate st c) = (pre ++ [(h, c)]) ++ rest) by (rewrite <- app_assoc; exact F).
+          destruct (IH (pre ++ [(h, c)]) (activate st c) _ _ _ _ _ F2 (fun h' c' n' Hi => Q h' c' n' (or_intror Hi)) E2)
+            as [A [B [j [J1 [J2 J3]]]]].
+          split; [exact A|]. split; [exact B|]. exists (S j). split; [simpl; rewrite J1; reflexivity|].
+          split; [intros X; rewrite (J2 X); reflexivity|]. apply fp_pass. exact J3.
+        + inversion H; subst. split; [reflexivity|]. split; [reflexivity|]. exists 1.
+          split; [reflexivity|]. split; [discriminate|]. apply fp_block.
+    Qed.
+
+    Lemma run_listeners_exact d k : forall todo pre st cell st' t,
+      lst_of st k = pre ++ todo -> quiet todo ->
+      run_listeners lp byref cci behav rec st d k todo cell = Some (st', t) ->
+      exists i s, listener_ids t = firstn i todo /\ listener_phase d k cell t s /\ (s = false -> i = length todo).
+    Proof.
+      induction todo as [|[h c] rest IH]; intros pre st cell st' t F Q H.
+      - simpl in H. inversion H; subst. exists 0, false. split; [reflexivity|]. split; [constructor|reflexivity].
+      - rewrite rl_cons in H.
+        assert (Eh : has_l h (lst_of st k) = true) by (rewrite F; apply (has_l_in h c); apply in_or_app; right; left; reflexivity).
+        rewrite Eh in H. cbv zeta in H. rewrite (Q h c _ (or_introl eq_refl)), rec_nil in H.
+        set (n := act_of (acts (activate st c)) c) in *.
+        set (cell1 := if byref then rewritten (write_of c n) cell else cell) in *.
+        assert (BV : byref = false -> cell1 = cell) by (intros X; unfold cell1; rewrite X; reflexivity).
+        simpl app in H. destruct (cci cell1) eqn:Ec.
+        + destruct (run_listeners lp byref cci behav rec (activate st c) d k rest cell1) as [[st3 t2]|] eqn:E2; [|discriminate].
+          inversion H; subst.
+          assert (F2 : lst_of (activate st c) k = (pre ++ [(h, c)]) ++ rest) by (rewrite <- app_assoc; exact F).
+          destruct (IH (pre ++ [(h, c)]) (activate st c) _ _ _ F2 (fun h' c' n' Hi => Q h' c' n' (or_intror Hi)) E2)
+            as [i [s [J1 [J2 J3]]]].
+          exists (S i), s. split; [simpl; rewrite J1; reflexivity|]. split; [apply lph_go; assumption|].
+          intros X. rewrite (J3 X). reflexivity.
+        + inversion H; subst. exists 1, true. split; [reflexivity|]. split; [apply lph_stop; assumption|discriminate].
+    Qed.
+
+    (* one dispatch whose filters and listeners run no commands: exactly the filters of the list, in
+       addition order, up to and including the first false; then - iff none was false and the second
+       mixin agrees - exactly the listeners of the key, in order, up to and including the first one
+       after which the policy says stop *)
+    Definition exact_listeners (st : fstate) (d k : nat) (v : Z) (tl : list fev) : Prop :=
+      exists i s, listener_phase d k v tl s /\ listener_ids tl = firstn i (lst_of st k)
+                  /\ (s = false -> i = length (lst_of st k)).
+
+    Theorem dispatch_exact st k a st' T :
+      quiet (flt st) -> quiet (lst_of st k) ->
+      dispatch lp byref cci mix2 behav rec st k a = Some (st', T) ->
+      let d := nextd st in
+      exists j tf r, filter_phase d a tf r /\ filter_ids tf = firstn j (flt st) /\
+        match r with
+        | None => T = EBegin d k a :: tf
+        | Some v =>
+            j = length (flt st) /\
+            match mix2 with
+            | Some m =>
+                if m v then exists tl, exact_listeners st d k v tl /\ T = EBegin d k a :: tf ++ EMixin d v true :: tl
+                else T = EBegin d k a :: tf ++ [EMixin d v false]
+            | None => exists tl, exact_listeners st d k v tl /\ T = EBegin d k a :: tf ++ tl
+            end
+        end.
+    Proof.
+      intros QF QL. rewrite dg_eq. cbv zeta. intros H.
+      destruct (run_filters lp behav rec (bump_d st) (nextd st) (flt (bump_d st)) a a) as [[[[st1 cell1] ok] t1]|] eqn:Ef; [|discriminate].
+      destruct (run_filters_exact (nextd st) a (flt st) [] (bump_d st) a st1 cell1 ok t1 eq_refl QF Ef) as [A [B [j [J1 [J2 J3]]]]].
+      change (flt (bump_d st)) with (flt st) in *. change (lsts (bump_d st)) with (lsts st) in B.
+      assert (L1 : lst_of st1 k = lst_of st k) by (unfold lst_of; rewrite B; reflexivity).
+      exists j, t1, (if ok then Some cell1 else None). split; [exact J3|]. split; [exact J1|].
+      assert (EL : forall st2 t3, run_listeners lp byref cci behav rec st1 (nextd st) k (lst_of st1 k) cell1 = Some (st2, t3) ->
+                   exact_listeners st (nextd st) k cell1 t3).
+      { intros st2 t3 El.
+        destruct (run_listeners_exact (nextd st) k (lst_of st1 k) [] st1 cell1 st2 t3 eq_refl ltac:(rewrite L1; exact QL) El) as [i [s [I1 [I2 I3]]]].
+        exists i, s. rewrite <- L1. split; [exact I2|]. split; [exact I1|exact I3]. }
+      destruct ok.
+      - split; [apply J2; reflexivity|]. destruct mix2 as [m|].
+        + destruct (m cell1).
+          * destruct (run_listeners lp byref cci behav rec st1 (nextd st) k (lst_of st1 k) cell1) as [[st2 t3]|] eqn:El; [|discriminate].
+            inversion H; subst. exists t3. split; [apply (EL _ _ eq_refl)|reflexivity].
+          * inversion H; subst. reflexivity.
+        + destruct (run_listeners lp byref cci behav rec st1 (nextd st) k (lst_of st1 k) cell1) as [[st2 t3]|] eqn:El; [|discriminate].
+          inversion H; subst. exists t3. split; [apply (EL _ _ eq_refl)|reflexivity].
+      - inversion H; subst. reflexivity.
+    Qed.
+  End Exact.
+
+  (* ----- queued = direct ----- *)
+
+  Theorem process_is_dispatch rec st e es :
+    pend st = e :: es ->
+    f_step lp byref cci mix2 behav rec st FProcess =
+    match f_seq lp byref cci mix2 behav rec (set_pend st []) (map (fun x => FDispatch (fst x) (snd x)) (e :: es)) with
+    | Some (st', t) => Some (st', t ++ [ERet true])
+    | None => None
+    end.
+  Proof. intros E. unfold f_step. rewrite E, pl_eq. reflexivity. Qed.
+
+  Theorem process_one_is_dispatch rec st e es :
+    pend st = e :: es ->
+    f_step lp byref cci mix2 behav rec st FProcessOne =
+    match f_seq lp byref cci mix2 behav rec (set_pend st es) [FDispatch (fst e) (snd e)] with
+    | Some (st', t) => Some (st', t ++ [ERet true])
+    | None => None
+    end.
+  Proof. intros E. unfold f_step. rewrite E, pl_eq. reflexivity. Qed.
+
+  Theorem enqueue_process_is_dispatch rec st k a :
+    pend st = [] ->
+    f_seq lp byref cci mix2 behav rec st [FEnqueue k a; FProcess] =
+    match f_seq lp byref cci mix2 behav rec st [FDispatch k a] with
+    | Some (st', t) => Some (st', t ++ [ERet true])
+    | None => None
+    end.
+  Proof.
+    intros E. destruct st as [fl ls nh fr hr pe ac nd]. simpl in E. subst pe.
+    cbn [f_seq f_step pend set_pend app process_loop flt lsts nexth fregs hregs acts nextd].
+    unfold dispatch. rewrite (ok_queue lp LP). unfold set_pend. cbn [flt lsts nexth fregs hregs acts nextd pend].
+    match goal with |- context [dispatch_gen ?x1 ?x2 ?x3 ?x4 ?x5 ?x6 true ?s k a] => destruct (dispatch_gen x1 x2 x3 x4 x5 x6 true s k a) as [[st1 t1]|] end; [|reflexivity].
+    rewrite !app_nil_r. reflexivity.
+  Qed.
+
+  (* ----- whole programs ----- *)
+
+  Lemma own_split d t1 e t2 : tag e = Some d -> own d (t1 ++ e :: t2) = own d t1 ++ e :: own d t2.
+  Proof. intros H. rewrite own_app. simpl. unfold tagged. rewrite H, Nat.eqb_refl. reflexivity. Qed.
+
+  Theorem every_dispatch_shaped fuel prog st' T :
+    f_run lp byref cci mix2 behav fuel f_init prog = Some (st', T) ->
+    (forall d, d < nextd st' -> exists k a, dispatch_own d k a (own d T))
+    /\ (forall d, nextd st' <= d -> own d T = []).
+  Proof.
+    intros H. destruct (run_good fuel _ _ _ _ H) as [_ [F G]]. simpl in F, G. split.
+    - intros d Hd. apply G. lia.
+    - intros d Hd. apply (own_out 0 (nextd st')); [exact F|lia].
+  Qed.
+
+  Lemma last_of_own fuel prog st' T d (P : fev -> Prop) T1 e T2 :
+    f_run lp byref cci mix2 behav fuel f_init prog = Some (st', T) ->
+    (forall k a o, dispatch_own d k a o -> only_last P o) ->
+    T = T1 ++ e :: T2 -> tag e = Some d -> P e ->
+    forall x, In x T2 -> tag x <> Some d.
+  Proof.
+    intros H HP E Te Pe x Hx Tx. destruct (every_dispatch_shaped _ _ _ _ H) as [A B].
+    assert (O : own d T = own d T1 ++ e :: own d T2) by (rewrite E; apply own_split; exact Te).
+    destruct (Nat.lt_ge_cases d (nextd st')) as [C|C].
+    - destruct (A d C) as [k [a Ho]]. assert (Z0 := HP k a _ Ho _ _ _ O Pe).
+      assert (In x (own d T2)) by (apply own_in; split; assumption). rewrite Z0 in H0. destruct H0.
+    - rewrite (B d C) in O. destruct (own d T1); discriminate.
+  Qed.
+
+  Theorem blocked_runs_no_listener fuel prog st' T T1 d h v T2 :
+    f_run lp byref cci mix2 behav fuel f_init prog = Some (st', T) ->
+    T = T1 ++ EVerdict d h false v :: T2 ->
+    (forall x, In x T2 -> tag x <> Some d)
+    /\ (forall h' c k v', ~ In (EListener d h' c k v') T).
+  Proof.
+    intros H E. split.
+    - apply (last_of_own fuel prog st' T d (is_false_verdict d) T1 (EVerdict d h false v) T2 H); [|exact E|reflexivity|exists h, v; reflexivity].
+      intros k a o Ho. apply (dispatch_own_facts _ _ _ _ _ _ _ Ho).
+    - intros h' c k v' Hi. destruct (every_dispatch_shaped _ _ _ _ H) as [A B].
+      assert (I1 : In (EVerdict d h false v) (own d T)).
+      { apply own_in. split; [rewrite E; apply in_or_app; right; left; reflexivity|reflexivity]. }
+      assert (I2 : In (EListener d h' c k v') (own d T)) by (apply own_in; split; [exact Hi|reflexivity]).
+      destruct (Nat.lt_ge_cases d (nextd st')) as [C|C]; [|rewrite (B d C) in I1; destruct I1].
+      destruct (A d C) as [k0 [a Ho]]. destruct (dispatch_own_facts _ _ _ _ _ _ _ Ho) as [_ [X _]].
+      apply (X (ex_intro _ _ (conj I1 (ex_intro _ h (ex_intro _ v eq_refl)))) _ I2). exists h', c, k, v'. reflexivity.
+  Qed.
+
+  Theorem cci_gate fuel prog st' T :
+    f_run lp byref cci mix2 behav fuel f_init prog = Some (st', T) ->
+    (forall T1 d v T2, T = T1 ++ ECci d v false :: T2 -> forall x, In x T2 -> tag x <> Some d)
+    /\ (forall d v b, In (ECci d v b) T -> b = cci v).
+  Proof.
+    intros H. split.
+    - intros T1 d v T2 E. apply (last_of_own fuel prog st' T d (is_false_cci d) T1 (ECci d v false) T2 H); [|exact E|reflexivity|exists v; reflexivity].
+      intros k a o Ho. apply (dispatch_own_facts _ _ _ _ _ _ _ Ho).
+    - intros d v b Hi. destruct (every_dispatch_shaped _ _ _ _ H) as [A B].
+      assert (I1 : In (ECci d v b) (own d T)) by (apply own_in; split; [exact Hi|reflexivity]).
+      destruct (Nat.lt_ge_cases d (nextd st')) as [C|C]; [|rewrite (B d C) in I1; destruct I1].
+      destruct (A d C) as [k0 [a Ho]]. destruct (dispatch_own_facts _ _ _ _ _ _ _ Ho) as [_ [_ [_ X]]]. apply (X _ _ I1).
+  Qed.
+
+  Theorem removed_filter_never_runs fuel prog st' T T1 h T2 :
+    f_run lp byref cci mix2 behav fuel f_init prog = Some (st', T) ->
+    T = T1 ++ EFRemoved h :: T2 -> norun h T2.
+  Proof.
+    intros H E. assert (W : wf f_init) by (intros x Hx; discriminate).
+    destruct (run_safe fuel _ _ _ _ H W) as [_ [_ [_ [_ P]]]]. apply (P T1 h T2 E).
+  Qed.
 End Runs.
+
+(* ---------- the two wrappers ---------- *)
+
+Section WrapperProofs.
+  Variables A B : Type.
+
+  Theorem cond_functor_iff (cond : A -> bool) (a a' : A) :
+    cond_functor A cond a = Some a' <-> cond a = true /\ a' = a.
+  Proof.
+    unfold cond_functor, GenFilter.cond_functor_runs. destruct (cond a); split.
+    - intros H. inversion H. split; reflexivity.
+    - intros [_ E]. subst. reflexivity.
+    - discriminate.
+    - intros [E _]. discriminate.
+  Qed.
+
+  Theorem arg_adapter_values (conv : A -> B) (args : list A) :
+    exists out, arg_adapter A B conv args = Some out /\ length out = length args
+                /\ forall i a, nth_error args i = Some a -> nth_error out i = Some (conv a).
+  Proof.
+    unfold arg_adapter, GenFilter.adapter_casts_each. exists (map conv args).
+    split; [reflexivity|]. split; [apply map_length|]. intros i a H. apply map_nth_error. exact H.
+  Qed.
+End WrapperProofs.
